@@ -15,6 +15,20 @@ from pathlib import Path
 REPO = Path("/repo")
 
 
+def crossing_family() -> list[str]:
+    """opener X, opener Y of another kind, X's closer, a complete pair Z, Y's closer - for all kinds: Y must stay unmatched text (or
+    pair up without crossing X), whatever the delimiter bookkeeping skipped over while matching Z"""
+    kinds = ["*", "_", "**", "__", "~~"]
+    out = []
+    for x in kinds:
+        for y in kinds:
+            if y[0] == x[0]:
+                continue
+            for z in kinds:
+                out.append(f"{x}a {y}b{x} {z}c{z} d{y}\n")
+    return out
+
+
 def corner_docs() -> list[str]:
     """hand-made documents for branches no spec example or fixture reaches (found with coverage.py)"""
     return ['![a](/u "t"  \n', '![a](/u "t" x)\n', '![foo][bar\n\n[foo]: /u\n', '![foo][]\n\n[foo]: /u\n', '![foo] [bar]\n\n[foo]: /u\n',
@@ -54,7 +68,7 @@ def corner_docs() -> list[str]:
         "<o'brien@example.com> <a{b@example.com> <100%@example.com> <dev--null@example.com>\n",
         # label-only definition line followed by an interrupting block, in an item with a wide content column
         "10. [foo]:\n    ***\n\n    see [foo]\n", "-   [foo]:\n    ```\n    x\n    ```\n",
-    ]
+    ] + crossing_family()
 
 
 @lru_cache(maxsize=1)
@@ -112,6 +126,17 @@ def inline_text(rng, n=None) -> str:
         if rng.random() < 0.3:
             parts.append(" ")
     return "".join(parts)
+
+
+def flanking_soup(rng) -> str:
+    """emphasis / strikethrough delimiter runs, each written so that it can only open (blank before, word after) or only close
+    (word before, blank after): every order of openers and closers of different kinds, incl. pairs that would cross"""
+    out = ["w"]
+    for _ in range(rng.randrange(3, 10)):
+        kind = rng.choice(["*", "**", "_", "__", "~~", "*", "**", "***"])
+        w = rng.choice(["a", "b", "cd", "x"])
+        out.append(f" {kind}{w}" if rng.random() < 0.5 else f"{w}{kind} ")
+    return "".join(out).strip()
 
 
 def inline_structured(rng, depth=0) -> str:
